@@ -97,7 +97,17 @@ func doCase(run *ev.Run, st *stats, fams []enumFamily, idx int64) {
 		st.Violation("C13:"+f.key, idx, f.what, witness, calls)
 	}
 	// second oracle
+	emptySet := false
+	for _, ph := range rr.Phases {
+		for _, d := range ph.Downloads {
+			if d.EmptySet() {
+				emptySet = true
+			}
+		}
+	}
 	switch {
+	case emptySet:
+		st.Count("porcupine", "skipped:round-with-200-empty-key-set-download(grey)")
 	case len(all) > 0 && maxCallers > 12:
 		st.Count("porcupine", "skipped:violating-round-with->12-concurrent-callers")
 	default:
@@ -166,7 +176,8 @@ func raceLog(run *ev.Run) {
 
 var mandatory = []string{"success:cache-hit-without-download", "success:after-refresh", "rotation:new-key-triggers-refresh-and-verifies", "reject:unknown-kid",
 	"reject:retired-key-after-refresh", "fault:cached-key-survives-failed-download", "shared-download:>=8-waiters-1-download",
-	"cancel:joiner-while-parked", "cancel:owner-while-parked", "porcupine:linearizable-history"}
+	"cancel:joiner-while-parked", "cancel:owner-while-parked", "porcupine:linearizable-history",
+	"fault:non-200-answer-with-jwks-body-is-a-failed-download"}
 
 // caseAt maps a position of the global case list (enumerated schedules first, then random rounds) to a case index.
 func caseAt(pos, nEnum int) int64 {
